@@ -262,5 +262,25 @@ def run(rep: Report, tier: str) -> None:
 	wired.note('py_rules.py is imported by the test suite only (test_syntax.py, test_ast.py); no runtime consumer exists to be checked')
 	rule_codec(rep, idx)
 	rule_groups(rep, idx, gram_rules_by)
+	rule_terminal_lexing(rep, idx)
 	rep.extra_coverage['programs'] = len(sync.obligations)
 	rep.extra_coverage['disagreements_checked'] = sum(1 for o in sync.obligations if o.status == 'violated')
+
+
+def rule_terminal_lexing(rep: Report, idx) -> None:
+	"""string ("...") and regexp (/.../) terminals of a .lark file are quote tokens of the grammar tokenizer: they are delimited by Lexer.parse_quote,
+	the same scan the Python tokenizer uses. A terminal that contains an escaped delimiter or ends in an escaped backslash (`/[^\\\\\\/]+/`, `"\\\\"`) survives
+	print -> parse only if that scan decides on the parity of the backslash run (shared with C13/quote-escape-independent-of-prefix)."""
+	from checks import c13
+	r = rep.rule('C12/terminals-delimited-by-escape-parity', 'the quote scan that delimits string and regexp terminals of a grammar file tests the constant backslash and ends on the parity of the backslash run before the closing delimiter', floor=2)
+	scratch = Report('C13', rep.tier)
+	c13.rule_quote_escape(scratch, idx.mod(c13.TOKENIZER_PY))
+	rep.consulted(c13.TOKENIZER_PY)
+	for rule in scratch.rules:
+		for o in rule.obligations:
+			if o.status == 'violated':
+				r.violate(o.key, (o.file, o.line), o.message, o.fragment)
+			elif o.message.startswith('NOT EVALUATED'):
+				r.skip(o.key, (o.file, o.line), o.message)
+			else:
+				r.ok(o.key, (o.file, o.line))
